@@ -12,6 +12,7 @@ import (
 	"strings"
 
 	"github.com/antonmedv/expr"
+	"github.com/antonmedv/expr/ast"
 	"github.com/antonmedv/expr/vm"
 )
 
@@ -182,6 +183,16 @@ func setBudget(b *int) func() {
 }
 
 // evalCase: C01-style conformance of every mode with the expected outcome.
+// zqFixer: a Patch visitor that repairs the unknown name Zq (replaces it by the integer 1).
+type zqFixer struct{}
+
+func (*zqFixer) Enter(*ast.Node) {}
+func (*zqFixer) Exit(n *ast.Node) {
+	if id, ok := (*n).(*ast.IdentifierNode); ok && id.Value == "Zq" {
+		ast.Patch(n, &ast.IntegerNode{Value: 1})
+	}
+}
+
 func (r *replayer) evalCase(c Case) {
 	lg := &Log{}
 	nontrivial := false
@@ -211,12 +222,34 @@ func (r *replayer) evalCase(c Case) {
 			continue
 		}
 		r.sum.Programs++
+		// C17: the same occurrences in a compilation whose first type check fails elsewhere and is repaired by a
+		// Patch visitor (`[Zq, <source>][1]` with a visitor that replaces the unknown name Zq by 1): the mapping
+		// applies as before
+		var prog2 *vm.Program
+		src2 := "[Zq, " + c.Src + "][1]"
+		if r.prop == "C17" && m.Env != "none" && !m.Undef {
+			p2, cg2 := CompileMode(src2, m, append(append([]expr.Option{}, extra...), expr.Patch(&zqFixer{}))...)
+			if cg2 != nil {
+				r.fail(Failure{Why: "compile-after-repairing-visitor", Src: src2, Mode: m.String(), Got: cg2, Tags: c.Tags})
+			} else {
+				prog2 = p2
+			}
+		}
 		for i := range c.Runs {
 			rc := c.Runs[i]
 			e, err := BuildEnv(rc.Env, lg)
 			if err != nil {
 				r.sum.Infra = append(r.sum.Infra, err.Error())
 				continue
+			}
+			if prog2 != nil {
+				g2 := RunMode(src2, prog2, m, e, lg)
+				r.sum.Executions++
+				if ok, why := conforms(g2, rc.Exp, rc.Exp.Ok); !ok {
+					exp := rc.Exp
+					r.fail(Failure{Why: "repaired-" + why, Src: src2, Mode: m.String(), Env: rc.Env, Budget: rc.Budget,
+						Exp: &exp, Got: &g2, DevMatch: devMatches(g2, rc.Dev, true), Tags: c.Tags})
+				}
 			}
 			restore := setBudget(rc.Budget)
 			g := RunMode(c.Src, prog, m, e, lg)
@@ -470,6 +503,12 @@ func (r *replayer) dispatch(line []byte) error {
 			return err
 		}
 		r.opTableCase(c)
+	case "C09M":
+		var c OpTableCase
+		if err := json.Unmarshal(line, &c); err != nil {
+			return err
+		}
+		r.opTableDeterminism(c)
 	case "C04P":
 		var c PipeCase
 		if err := json.Unmarshal(line, &c); err != nil {
